@@ -86,7 +86,6 @@ func waitDone(done chan struct{}, d time.Duration) bool {
 	}
 }
 
-
 // runs the calls that begin after the close has returned; they must come back
 func afterGuarded(o *c15Obs, after func() []string) {
 	ch := make(chan []string, 1)
@@ -368,13 +367,24 @@ func c15Scripted(w *ndWriter) int {
 		return o
 	}())
 	// requests still queued when the target completes without serving them (k callers; the mailbox holds 5)
-	for _, k := range []int{1, 3, 6} {
-		k := k
+	for _, kk := range []int{1, 3, 6, -1, -3} { // negative: the target is started with StartWithVal and never takes that value either
+		k, withVal := kk, false
+		if kk < 0 {
+			k, withVal = -kk, true
+		}
 		emit(func() c15Obs {
-			o := c15Obs{Scenario: fmt.Sprintf("%d-YieldFrom-queued|target-completes-unserved", k), Object: "Cor", AfterClose: []string{}, Reached: true}
+			name := fmt.Sprintf("%d-YieldFrom-queued|target-completes-unserved", k)
+			if withVal {
+				name = fmt.Sprintf("%d-YieldFrom-queued|target(StartWithVal)-completes-unserved", k)
+			}
+			o := c15Obs{Scenario: name, Object: "Cor", AfterClose: []string{}, Reached: true}
 			finish := make(chan struct{})
 			target := fpgo.CorNewGenerics[int](func() { <-finish })
-			target.Start()
+			if withVal {
+				target.StartWithVal(7)
+			} else {
+				target.Start()
+			}
 			var wg sync.WaitGroup
 			var pmu sync.Mutex
 			for i := 0; i < k; i++ {
@@ -409,7 +419,9 @@ func c15Scripted(w *ndWriter) int {
 
 // ---- one-preemption closure: every hook point of every operation x the close, both ways round -----------------------
 // side "user":   the user operation (or library goroutine) is parked at `point`, the close runs (to completion, or until
-//                it blocks on a lock the parked goroutine holds), then the parked goroutine is released
+//
+//	it blocks on a lock the parked goroutine holds), then the parked goroutine is released
+//
 // side "closer": the closing goroutine is parked at `point` inside Close, the user operation runs, then the closer is released
 type c15Inst struct {
 	objs         []interface{}
